@@ -263,7 +263,7 @@ Qed.
 Lemma leaf_structure i : parse_structure t (SLeaf i) = Ok (mk_structure (SLeaf i) None [] [] [] (Some i)).
 Proof. reflexivity. Qed.
 
-(* admission of a child named D_k under a parent of complex datatype D whose structure knows D_k *)
+(* acceptance of a child named D_k under a parent of complex datatype D whose structure knows D_k *)
 Lemma vcc_named_child pn D st k kdt : dt_name_ok D -> k <> 0 ->
   has_map (Some st) = true -> opt_is_some (by_name st (name_idx D k)) = true ->
   valid_child_complex t TOLERANT pn (Some D) (Some st) (Some (name_idx D k)) kdt = Ok true.
